@@ -35,6 +35,7 @@ type Case struct {
 }
 
 type emitter struct {
+	seed int64
 	w    *bufio.Writer
 	n    int
 	prop string
@@ -52,7 +53,7 @@ func newEmitter(path, prop string, seed int64) *emitter {
 	if err != nil {
 		panic(err)
 	}
-	return &emitter{w: bufio.NewWriterSize(f, 1<<20), prop: prop, rng: rand.New(rand.NewSource(seed))}
+	return &emitter{w: bufio.NewWriterSize(f, 1<<20), prop: prop, seed: seed, rng: rand.New(rand.NewSource(seed))}
 }
 
 func (e *emitter) emit(c *Case) {
@@ -144,12 +145,26 @@ func runOpShared(name string, attrs []Attr, inputs []*TJ, outNames []string, sha
 		}
 		ts := make([]tensor.Tensor, len(inputs))
 		snaps := make([]snap, len(inputs))
+		pooled := false
+		poolKeys := make([]string, len(inputs))
 		for i, t := range inputs {
 			ts[i] = mkTensor(t)
 			if inputLayout == "lazy-transposed" {
 				ts[i] = lazyTransposed(ts[i])
 			}
 			snaps[i] = snapshot(ts[i])
+			// operand objects live on: an operand with the contents of an earlier case's operand (at the same
+			// position of the same operator) IS that earlier tensor object, as when one weight feeds several
+			// nodes with different attributes - whatever an operator remembers about a tensor by its identity
+			// (a cache keyed by the pointer) meets the same object again with other attributes
+			if operandPoolOn && share == nil && inputLayout == "" && t != nil && ts[i] != nil && nelem(t.Shape) <= 4096 {
+				b, _ := json.Marshal(t)
+				poolKeys[i] = fmt.Sprintf("%s|%d|%s", name, i, b)
+				if old, ok := operandPool[poolKeys[i]]; ok && len(diffSnap(0, snapshot(old), snaps[i])) == 0 {
+					ts[i] = old
+					pooled = true
+				}
+			}
 		}
 		for _, p := range share {
 			ts[p[0]] = ts[p[1]]
@@ -187,6 +202,20 @@ func runOpShared(name string, attrs []Attr, inputs []*TJ, outNames []string, sha
 			res.Mut = append(res.Mut, diffSnap(i, snaps[i], snapshot(orig[i]))...)
 		}
 		res.Edited = edited
+		res.Pooled = pooled
+		for i, k := range poolKeys {
+			if k == "" || orig[i] == nil {
+				continue
+			}
+			if len(diffSnap(0, snaps[i], snapshot(orig[i]))) == 0 { // untouched by the operator: keep the object for later cases
+				if len(operandPool) > 4000 {
+					operandPool = map[string]tensor.Tensor{}
+				}
+				operandPool[k] = orig[i]
+			} else {
+				delete(operandPool, k)
+			}
+		}
 		if res.Status == "ok" && share == nil && inputLayout == "" {
 			reuseCounter++
 			if reuseEvery > 0 && reuseCounter%reuseEvery == 0 {
@@ -197,6 +226,10 @@ func runOpShared(name string, attrs []Attr, inputs []*TJ, outNames []string, sha
 		return res
 	})
 }
+
+// operandPool: see runOpShared
+var operandPool = map[string]tensor.Tensor{}
+var operandPoolOn = true
 
 // inputLayout "lazy-transposed": every input of rank >= 2 is handed over as a Dense whose backing array
 // is stored transposed and whose transposition back is still pending (what a caller gets from x.T()):
